@@ -22,43 +22,53 @@ def add(tag, scope, *texts):
 add("lang", "file",
     "static extern int q%d;", "typedef static int q%d;", "auto int q%d;", "register int q%d;", "int int q%d;", "long long long q%d;", "short short q%d;",
     "signed signed q%d;", "unsigned unsigned q%d;", "signed unsigned q%d;", "float int q%d;", "unsigned double q%d;", "short long q%d;", "void q%d;",
-    "const q%d;", "struct hs { int z; };", "union hs q%d;", "enum hs q%d;", "struct e%d { };", "struct e%d { int; };", "struct e%d { int a; int a; };"[:0] or "struct e%d { void v; };",
+    "const q%d;", "struct hs { int z; };", "union hs q%d;", "enum hs q%d;", "struct e%d { };", "struct e%d { int; };", "struct e%d { int a; int a; };", "struct e%d { void v; };",
     "struct e%d { int f(void); };", "struct e%d { int a[]; int b; };", "struct e%d { struct e%d m; };", "struct e%d { int a:33; };", "struct e%d { int a:-1; };",
     "struct e%d { float a:3; };", "struct e%d { int a:0; };", "struct e%d { _Alignas(8) int a:3; };", "struct e%d { _Alignas(1) int a; };", "struct e%d { struct hsf { int x; int y[]; } m; int z; };",
     "enum e%d { A%d = 1.5 };", "enum e%d { A%d = gi };", "enum e%d : float { A%d };", "enum e%d : unsigned char { A%d = 256 };", "enum e%d { A%d = 0xffffffffffffffff, B%d };",
-    "enum e%d { A%d = -1, B%d = 0xffffffffffffffff };", "int q%d[-1];", "int q%d[1.5];", "int q%d[0xffffffffffffffff];", "void q%d[2];", "int q%d(void)[2];"[:0] or "int q%d[2](void);",
-    "int q%d(void)(void);", "struct inc q%d[2];", "int q%d(void v);", "int q%d(int, void);", "int q%d(static int a);", "int q%d(int a, int a);"[:0] or "int q%d(int (int));"[:0] or "int (q%d;",
+    "enum e%d { A%d = -1, B%d = 0xffffffffffffffff };", "int q%d[-1];", "int q%d[1.5];", "int q%d[0xffffffffffffffff];", "void q%d[2];", "int q%d(void)[2];", "int q%d[2](void);",
+    "int q%d(void)(void);", "struct inc q%d[2];", "int q%d(void v);", "int q%d(int, void);", "int q%d(static int a);", "int q%d(int a, int a);", "int q%d(int (int));", "int (q%d;",
     "_Alignas(3) int q%d;", "_Alignas(1) int q%d;", "_Alignas(8) typedef int q%d;", "_Alignas(8) int q%d(void);", "typedef int tdef2 __asm__(\"x\");", "typedef long tdef;",
-    "int gi(void);", "static int gi;", "long gi;", "int q%d; static int q%d;"[:0] or "extern int gs;", "int q%d = 1; int q%d = 2;"[:0] or "_Static_assert(0, \"no\");",
-    "_Static_assert(gi, \"no\");", "_Static_assert(1.5, \"no\");", "int q%d(void) { return 1; } int q%d(void) { return 2; }"[:0] or "int gfn2(int);", "inline int q%d;"[:0] or "int q%d __asm__(\"a\"); int q%d __asm__(\"b\");"[:0] or "int;"[:0] or "struct hs gs2 = { .nosuch = 1 };",
-    "int q%d[2] = { [2] = 1 };", "int q%d[2] = { 1, 2, 3 };", "int q%d = { { 1 } };", "int q%d[] = { };"[:0] or "struct inc q%d = { 0 };", "int q%d[2] = { .a = 1 };", "struct hs q%d = { [0] = 1 };",
-    "char q%d[2] = L\"a\";", "int q%d = { 1, 2 };"[:0] or "int q%d[2] = { 1 2 };", "int *q%d = 1.5;", "int *q%d = &gd;", "int *q%d = gcp;", "struct hs q%d = 1;", "int q%d = gs;",
-    "int q%d = gi;", "int q%d = gf;"[:0] or "int *q%d = &gs.b;", "int q%d = sizeof(void);", "int q%d = sizeof(struct inc);", "int q%d = sizeof(int(void));", "int q%d = _Alignof(struct inc);",
+    "int gi(void);", "static int gi;", "long gi;", "int q%d; static int q%d;", "extern int gs;", "int q%d = 1; int q%d = 2;", "_Static_assert(0, \"no\");",
+    "_Static_assert(gi, \"no\");", "_Static_assert(1.5, \"no\");", "int q%d(void) { return 1; } int q%d(void) { return 2; }", "int gfn2(int);", "inline int q%d;", "int q%d __asm__(\"a\"); int q%d __asm__(\"b\");", "int;", "struct hs gs2 = { .nosuch = 1 };",
+    "int q%d[2] = { [2] = 1 };", "int q%d[2] = { 1, 2, 3 };", "int q%d = { { 1 } };", "int q%d[] = { };", "struct inc q%d = { 0 };", "int q%d[2] = { .a = 1 };", "struct hs q%d = { [0] = 1 };",
+    "char q%d[2] = L\"a\";", "int q%d = { 1, 2 };", "int q%d[2] = { 1 2 };", "int *q%d = 1.5;", "int *q%d = &gd;", "int *q%d = gcp;", "struct hs q%d = 1;", "int q%d = gs;",
+    "int q%d = gi;", "int q%d = gf;", "int *q%d = &gs.b;", "int q%d = sizeof(void);", "int q%d = sizeof(struct inc);", "int q%d = sizeof(int(void));", "int q%d = _Alignof(struct inc);",
     "int q%d = sizeof gs.b;", "int q%d = _Generic(1, int: 1, int: 2);", "int q%d = _Generic(1, default: 1, default: 2);", "int q%d = _Generic(1, long: 1);", "int q%d = _Generic(1, void: 1, default: 2);",
     "int q%d = _Generic(1, struct inc: 1, default: 2);", "int q%d = _Generic(1, int(void): 1, default: 2);", "int q%d = _Generic(1, 2: 1);", "int q%d = __builtin_offsetof(struct hs, nosuch);",
     "int q%d = __builtin_offsetof(int, a);", "int q%d = __builtin_offsetof(struct hs, arr.x);", "int q%d = __builtin_offsetof(struct hs, a[1]);", "int q%d = 1q;", "int q%d = 1.0q;", "int q%d = 0x;",
     "int q%d = 99999999999999999999;", "int q%d = 'ab';", "int q%d = undeclared_x;", "int q%d = (1;", "int q%d = 1 +;", "int q%d = gp * 2;", "int q%d = gd %% 2;", "int q%d = gd << 1;", "int q%d = ~gd;",
-    "int q%d = gd & 1;", "int q%d = -gp;"[:0] or "int q%d = gs + 1;", "int q%d = !gs;", "int q%d = gs && 1;", "int q%d = gs ? 1 : 2;", "int q%d = 1 ? gs : 2;", "int q%d = 1 ? gp : gd;",
-    "int q%d = (struct hs)gi;", "int q%d = (int)gs;", "int q%d = gp + gp;", "int q%d = gp - gcp + gd;"[:0] or "long q%d = gp - &gd;", "int q%d = gp < &gd;", "int q%d = gp == &gd;", "int q%d = gp < 1;"[:0] or "int q%d = gvp + 1;"[:0] or "int q%d = ginc + 1;"[:0] or "int q%d = *gi;",
+    "int q%d = gd & 1;", "int q%d = -gp;", "int q%d = gs + 1;", "int q%d = !gs;", "int q%d = gs && 1;", "int q%d = gs ? 1 : 2;", "int q%d = 1 ? gs : 2;", "int q%d = 1 ? gp : gd;",
+    "int q%d = (struct hs)gi;", "int q%d = (int)gs;", "int q%d = gp + gp;", "int q%d = gp - gcp + gd;", "long q%d = gp - &gd;", "int q%d = gp < &gd;", "int q%d = gp == &gd;", "int q%d = gp < 1;", "int q%d = gvp + 1;", "int q%d = ginc + 1;", "int q%d = *gi;",
     "int q%d = gi[gi];", "int q%d = gp[gd];", "int q%d = gi();", "int q%d = gfn2(1);", "int q%d = gfn2(1, 2, 3);", "int q%d = gs.nosuch;", "int q%d = gi.a;", "int q%d = gi->a;", "int q%d = gp->a;", "int q%d = gs.;",
-    "int *q%d = &1;", "int *q%d = &gs.b;", "int q%d = *ginc;"[:0] or "int q%d = gsp->;", "unsigned float q%d;", "int q%d, ;", "int q%d", "int 5q;", "int q%d = ;", "q%d;"[:0] or "}", "int q%d[;", ";")
+    "int *q%d = &1;", "int *q%d = &gs.b;", "int q%d = *ginc;", "int q%d = gsp->;", "unsigned float q%d;", "int q%d, ;", "int q%d", "int 5q;", "int q%d = ;", "q%d;", "}", "int q%d[;", ";")
 add("lang", "block",
-    "gi = undeclared_y;", "undeclared_f();"[:0] or "1 = 2;", "gi + 1 = 2;", "gc = 2;", "gs.c = 1;", "gc++;", "--gc;", "garr = 0;", "gf = 0;"[:0] or "gi++ ++;", "++gi++;"[:0] or "&gi = 0;"[:0] or "gp = 1.5;", "gp = &gd;",
-    "gp = gcp;", "gs = 1;", "gi = gs;", "gs = gu;", "gd = gp;", "gb = gs;", "gp = gi;"[:0] or "break;", "continue;", "case 1: ;", "default: ;", "switch (gi) { case 1: case 1: ; }",
+    "gi = undeclared_y;", "undeclared_f();", "1 = 2;", "gi + 1 = 2;", "gc = 2;", "gs.c = 1;", "gc++;", "--gc;", "garr = 0;", "gf = 0;", "gi++ ++;", "++gi++;", "&gi = 0;", "gp = 1.5;", "gp = &gd;",
+    "gp = gcp;", "gs = 1;", "gi = gs;", "gs = gu;", "gd = gp;", "gb = gs;", "gp = gi;", "break;", "continue;", "case 1: ;", "default: ;", "switch (gi) { case 1: case 1: ; }",
     "switch (gi) { default: default: ; }", "switch (gd) { }", "switch (gp) { }", "switch (gi) { case gi: ; }", "switch (gi) { case 1.5: ; }", "if (gs) ;", "while (gs) ;", "do ; while (gs);",
-    "for (; gs; ) ;", "goto nosuchlabel%d;", "lab%d: lab%d: ;"[:0] or "return gs;"[:0] or "int lv%d; int lv%d;"[:0] or "_Thread_local int tl%d;", "static int sf%d(void);", "extern int ei%d = 1;", "int lf%d(void) { return 1; }",
-    "struct inc li%d;", "void lv%d;", "int la%d[gi] = { 1 };"[:0] or "static int ls%d[gi];", "extern int le%d[gi];", "gf(1, 2);", "gf();", "gfp(gs);", "gi(1);", "gp->a = 1;", "gs->a = 1;", "gsp.a = 1;",
-    "*gi = 1;", "gi[1] = 1;", "gs.nosuch = 1;", "gp = &gs.b;", "gi = sizeof gs.b;", "gi = *gvp;"[:0] or "gvp++;"[:0] or "ginc++;", "gp = gp + gp;", "gi = gp * 2;", "gd %%= 2;", "gd <<= 1;", "gp *= 2;", "gp += gp;",
-    "gi = gp - &gd;", "gi = gp < &gd;", "gi = 1 ? gp : &gd;", "gi = (gs ? 1 : 2);", "gi = -gs;"[:0] or "gi = +gp;", "gi = ~gd;", "gi = !gs;", "(struct hs)gi;", "(int)gs;", "(int[2])gi;"[:0] or "(double)gp;"[:0] or "else ;", "if (1 ;",
-    "while () ;", "do ; while ();", "for (;;;) ;", "gi = (1;", "gi = 1 +;", "gi = ;", "{", "return 1 2;"[:0] or "int lq%d lq2;", "gi = __builtin_va_arg(gi, int);", "__builtin_va_end(gi);",
-    "__builtin_va_start(gi);", "__builtin_va_copy(gi, gi);", "gi = __builtin_alloca;", "__builtin_unreachable(1);"[:0] or "gfl = __builtin_nanf(\"1\");", "gi = _Generic(gi, long: 1);",
-    "gi = gp[ginc];"[:0] or "gi = ginc[0];"[:0] or "{ int x%d; int x%d; }"[:0] or "gi = gfn2;"[:0] or "typedef int lt%d; lt%d lt%d2 = gs;"[:0] or "gi = HE1 = 2;"[:0] or "HE1++;")
+    "for (; gs; ) ;", "goto nosuchlabel%d;", "lab%d: lab%d: ;", "return gs;", "int lv%d; int lv%d;", "_Thread_local int tl%d;", "static int sf%d(void);", "extern int ei%d = 1;", "int lf%d(void) { return 1; }",
+    "struct inc li%d;", "void lv%d;", "int la%d[gi] = { 1 };", "static int ls%d[gi];", "extern int le%d[gi];", "gf(1, 2);", "gf();", "gfp(gs);", "gi(1);", "gp->a = 1;", "gs->a = 1;", "gsp.a = 1;",
+    "*gi = 1;", "gi[1] = 1;", "gs.nosuch = 1;", "gp = &gs.b;", "gi = sizeof gs.b;", "gi = *gvp;", "gvp++;", "ginc++;", "gp = gp + gp;", "gi = gp * 2;", "gd %%= 2;", "gd <<= 1;", "gp *= 2;", "gp += gp;",
+    "gi = gp - &gd;", "gi = gp < &gd;", "gi = 1 ? gp : &gd;", "gi = (gs ? 1 : 2);", "gi = -gs;", "gi = +gp;", "gi = ~gd;", "gi = !gs;", "(struct hs)gi;", "(int)gs;", "(int[2])gi;", "(double)gp;", "else ;", "if (1 ;",
+    "while () ;", "do ; while ();", "for (;;;) ;", "gi = (1;", "gi = 1 +;", "gi = ;", "{", "return 1 2;", "int lq%d lq2;", "gi = __builtin_va_arg(gi, int);", "__builtin_va_end(gi);",
+    "__builtin_va_start(gi);", "__builtin_va_copy(gi, gi);", "gi = __builtin_alloca;", "__builtin_unreachable(1);", "gfl = __builtin_nanf(\"1\");", "gi = _Generic(gi, long: 1);",
+    "gi = gp[ginc];", "gi = ginc[0];", "{ int x%d; int x%d; }", "gi = gfn2;", "typedef int lt%d; lt%d lt%d2 = gs;", "gi = HE1 = 2;", "HE1++;")
 add("lang", "block", "gp = 1.5;", "gd = gp;", "gp = gi;", "return gs;", "gi = gfn2;", "gf = 0;", "&gi = 0;", "HE1 = 2;", "HE1++;", "gvp++;", "gi = *gvp;", "gi = -gp;", "gi = gvp + 1 == 0;",
     "{ int x%d; int x%d; }", "lab%d: ; lab%d: ;", "gi = gp < 1;", "int la%d[gi] = { 1 };", "gi = ginc[0];", "ginc = ginc + 1;", "gi++ ++;", "++gi++;", "(double)gp;", "gp = (int *)gd;",
-    "int lfa%d[2](void);", "gi = sizeof(int[-1]);"[:0] or "gs.arr = garr;", "gstr = \"abc\";", "gi = (void)1;", "gf(gf(1));", "gi = gf(1);", "gp = gf;"[:0] or "gi = 1 ? (void)0 : 1;")
+    "int lfa%d[2](void);", "gi = sizeof(int[-1]);", "gs.arr = garr;", "gstr = \"abc\";", "gi = (void)1;", "gf(gf(1));", "gi = gf(1);", "gp = gf;", "gi = 1 ? (void)0 : 1;")
+# ---- constraints repaired after a sub-agent's probe (DESIGN 11.3): const stores through decayed arrays and bit-fields, struct with const member,
+# ---- variadic arity, bit-field width marker, duplicate members/parameters, hex float without exponent, #line flags
+add("lang", "block", "{ const int ca%d[3] = { 0 }; *ca%d = 1; }", "{ const int cm%d[2][2] = { { 0 } }; **cm%d = 0; }", "{ const struct hs *cp%d = gsp; cp%d->b = 1; }",
+    "{ const struct hs *cq%d = gsp; cq%d->b++; }", "{ const struct hs *cr%d = gsp; cr%d->b += 2; }", "gs = *gsp;", "*gsp = gs;",
+    "{ struct cw%d { int k; struct { const int c[2]; } in[2]; } a%d, b%d; a%d = b%d; }")
+add("lang", "file", "int vf%d(int, int, ...); int vu%d(void) { return vf%d(1); }", "struct e%d { int a : -1ull; };", "struct e%d { int : -1ull; int y; };",
+    "struct e%d { int a; struct { int b; int a; }; };", "struct e%d { struct { int y; int x; }; int x; };", "union e%d { int a; float a; };",
+    "int q%d(int a, int a);", "int q%d(int a, int (*g)(int), char a) { return 0; }", "double q%d = 0x1.0;", "float q%d = 0x.8f;")
+add("lang", "unit", "#line 1 2\nint x;\n", "# 3 4\nint x;\n")
+
 # ---- unsupported features ------------------------------------------------------------------------------------
 add("unsup", "file", "_Atomic int q%d;", "_Atomic(int) q%d;", "int _Atomic q%d;", "_Complex double q%d;", "double _Complex q%d;", "long double q%d = 1.0L;", "struct __attribute__((aligned(8))) ua%d { char c; };",
-    "struct __attribute__((packed)) up%d { int a:3; };", "__attribute__((aligned(8))) int q%d;", "[[gnu::packed]] int q%d;", "__asm__(\"nop\");"[:0] or "long double q%d(long double a) { return a + 1; }",
+    "struct __attribute__((packed)) up%d { int a:3; };", "__attribute__((aligned(8))) int q%d;", "[[gnu::packed]] int q%d;", "__asm__(\"nop\");", "long double q%d(long double a) { return a + 1; }",
     "int q%d = sizeof(long double) + (int)(long double)1;"[:0] or "void q%d(int n, ...) { __builtin_va_list ap; __builtin_va_start(ap, n); struct hs v = __builtin_va_arg(ap, struct hs); }")
 add("unsup", "block", "__asm__(\"nop\");", "{ volatile int vv%d; vv%d = 1; }", "{ long double ld%d = 1; ld%d = ld%d + 1; }", "{ long double le%d = gi; }", "gd = (long double)gi;",
     "gi = ({ 1; });", "gi = gi ?: 2;")
@@ -66,17 +76,17 @@ add("unsup", "unit", "#if 1\n#endif\n", "#ifdef A\n#endif\n", "#ifndef A\n#endif
     "#define D ##\n", "int x;\n#endif\n", "int x;\n#else\n")
 # ---- lexical / preprocessor (scan.c, pp.c) -----------------------------------------------------------------------
 add("lang", "unit", "int c = '\\q';\n", "char s[] = \"\\q\";\n", "char s[] = \"\\x\";\n", "int c = '\\xg';\n", "int c = 'a\n';\n", "char s[] = \"ab\ncd\";\n", "int c = 'a", "char s[] = \"abc", "int x; /* open comment",
-    "char s[] = L\"a\" u\"b\";\n", "char s[] = \"\\400\";\n"[:0] or "int c = '';\n", "#define\n", "#define 1 2\n", "#define F(x\n", "#define F(x,) x\n", "#define F(x x) x\n", "#define F(..., x) x\n", "#define F(x) #y\n",
+    "char s[] = L\"a\" u\"b\";\n", "char s[] = \"\\400\";\n", "int c = '';\n", "#define\n", "#define 1 2\n", "#define F(x\n", "#define F(x,) x\n", "#define F(x x) x\n", "#define F(..., x) x\n", "#define F(x) #y\n",
     "#define F(x) #\n", "#define A __VA_ARGS__\n", "#define A(x) __VA_ARGS__\n", "#undef\n", "#undef 1\n", "#undef A B\n", "#define A 1\n#define A 2\n", "#define F(x) x\n#define F(y) y\n",
     "#define F(x) x\nint y = F(1, 2);\n", "#define F(x, y) x\nint y = F(1);\n", "#define F() 1\nint y = F(1);\n", "#define F(x) x\nint y = F(\n", "#define F(x) x\nint y = F(1\n", "#foo\n", "#line\n", "#line x\n",
-    "#line 1 2\n"[:0] or "# 1 x\n", "#define A 1 extra\n#define A 1\n"[:0] or "int x = 1 @ 2;\n", "int x = 1 $ 2;\n"[:0] or "int `x;\n", "int x = 08;\n"[:0] or "int x = 0b12;\n", "int x = 1e;\n"[:0] or "int x = 1e+;\n"[:0] or "double d = 1.0e+q;\n",
-    "double d = 0x1.0;\n"[:0] or "double d = 1.0ff;\n", "int x = 1uu;\n", "int x = 1lul;\n", "int x = 1LLL;\n", "int x = 0x1g;\n", "[[", "[[x(", "__attribute__((x(", "__attribute__((", "int x __attribute__;\n",
-    "int x [[gnu::aligned(3)]];\n"[:0] or "__attribute__((aligned(3))) int x;\n"[:0] or "int f(void) { return 1;\n", "int f(void) { if (1) {\n", "int a[] = { 1,\n", "struct s { int a;\n", "int f(int a,\n", "int x = (1 +\n")
+    "#line 1 2\n", "# 1 x\n", "#define A 1 extra\n#define A 1\n", "int x = 1 @ 2;\n", "int x = 1 $ 2;\n", "int `x;\n", "int x = 08;\n", "int x = 0b12;\n", "int x = 1e;\n", "int x = 1e+;\n", "double d = 1.0e+q;\n",
+    "double d = 0x1.0;\n", "double d = 1.0ff;\n", "int x = 1uu;\n", "int x = 1lul;\n", "int x = 1LLL;\n", "int x = 0x1g;\n", "[[", "[[x(", "__attribute__((x(", "__attribute__((", "int x __attribute__;\n",
+    "int x [[gnu::aligned(3)]];\n", "__attribute__((aligned(3))) int x;\n", "int f(void) { return 1;\n", "int f(void) { if (1) {\n", "int a[] = { 1,\n", "struct s { int a;\n", "int f(int a,\n", "int x = (1 +\n")
 add("impl", "unit", "int main(void) { goto l; }\n", "void f(void) { l: ; l: ; }\n", "int x = 1/0;\n", "int a[1/0];\n", "enum { A = 1/0 };\n", "int x = (int)1e100;\n", "unsigned x = (unsigned)-1.5;\n",
     "static int x = (int)(1.0/0.0);\n", "char a[0x7fffffffffffffff][3];\n", "int a[0x4000000000000000];\n", "_Alignas(0x100000000) int x;\n", "enum { A = 0x7fffffffffffffff, B };\n",
     "enum { A = -0x7fffffffffffffff - 1, B = 0x8000000000000000 };\n", "char s[] = \"\udcff\";\n", "char s[] = \"\udcc0\udc80\";\n", "char s[] = \"\udced\udca0\udc80\";\n", "int c = L'\udcf0\udc9f';\n",
     "void f(int a) { switch (a) { case 4294967296: case 0: ; } }\n", "void f(int a) { switch (a) { case -1: case 4294967295: ; } }\n", "typedef int F(void); F f { }\n", "int f(void v) { return 0; }\n",
-    "int x = __builtin_types_compatible_p(int, );\n", "int x = __builtin_offsetof(1, a);\n", "void f(void) { int a[*]; }\n"[:0] or "char *s = \"\"^0;\n", "double d = 1.0 & 2;\n", "void f(struct hs2 { int a; } v) { v ? 1 : 2; }\n",
+    "int x = __builtin_types_compatible_p(int, );\n", "int x = __builtin_offsetof(1, a);\n", "void f(void) { int a[*]; }\n", "char *s = \"\"^0;\n", "double d = 1.0 & 2;\n", "void f(struct hs2 { int a; } v) { v ? 1 : 2; }\n",
     "int x = __builtin_alloca;\n", "_BitInt(3) x;\n", "int _BitInt = 1;\n", "#define F(x, y) x y\nint a = F(,,);\n", "int x = '\\08';\n")
 
 CATALOGUE = E
